@@ -135,6 +135,8 @@ def _(rnd, g, tier):
     lab = g.integers(0, npk + 1, (ns, nf)).astype(np.int32)
     if rnd.random() < 0.2 and npk:
         lab[rnd.randrange(ns), rnd.randrange(nf)] = npk  # label at capacity
+    if rnd.random() < 0.15:
+        lab[rnd.randrange(ns), rnd.randrange(nf)] = rnd.choice([-1, -1, -2, -7])   # pixels marked as masked: counted as bad, skipped
     return ({"data": L(img_f32(g, ns, nf)), "labels": L(lab), "np": npk, "omega": rnd.choice([0.0, -3.5, 12.25]),
              "verbose": rnd.choice([0, 0, 0, 1]), "ns": ns, "nf": nf, "results": [npk, NPROPERTY]},
             {"data": "in", "labels": "in", "results": "out"}, {"results": "all"})
@@ -196,6 +198,10 @@ def _(rnd, g, tier):
 @gen("localmaxlabel")
 def _(rnd, g, tier):
     ns, nf = shape2(rnd, 3)
+    if rnd.random() < 0.1:
+        nf = 2          # a strip of two columns: every pixel is on the border
+    elif rnd.random() < 0.05:
+        ns = 2
     im = g.permutation(ns * nf).astype(np.float32).reshape(ns, nf)
     return ({"data": L(im), "labels": [ns, nf], "wrk": [ns, nf], "ns": ns, "nf": nf},
             {"data": "in", "labels": "out", "wrk": "work"}, {"labels": "all"})
